@@ -179,9 +179,9 @@ def analyse(built, variant, cmd, rc, out, err, wall):
         for s in spans:
             if not s['file_name'].endswith('.rs'):
                 continue
-            same_file = os.path.basename(s['file_name']) == os.path.basename(r.path or s['file_name'])
+            same_file = os.path.basename(s['file_name']).startswith(built.name) and '/' in s['file_name']
             idx = s['line_start'] - 1
-            if not (0 <= idx < nlines) or 'vstd' in s['file_name']:
+            if not (0 <= idx < nlines) or 'vstd' in s['file_name'] or not same_file:
                 info['spans'].append({'where': s['file_name'], 'label': s.get('label')})
                 continue
             ln = built.lines[idx]
